@@ -1017,7 +1017,14 @@ func (x *Exec) runBlock(fr *Frame, st *State, b *ssa.BasicBlock, from *ssa.Basic
 		// control leaves a loop for the code after it: `loop N exit E`
 		for h, ord := range fr.loops.headers {
 			// (the normal exit: the loop condition, evaluated in the header, is false)
-			if cs := x.ctr.LoopExit[ord]; len(cs) > 0 && from == h && !fr.loops.body[h][b] && h != b {
+			// ... or a break: an edge from inside the loop to the block the header exits to
+			toExit := false
+			for _, sc := range h.Succs {
+				if sc == b && !fr.loops.body[h][sc] {
+					toExit = true
+				}
+			}
+			if cs := x.ctr.LoopExit[ord]; len(cs) > 0 && (from == h || (fr.loops.body[h][from] && toExit)) && !fr.loops.body[h][b] && h != b {
 				env := x.loopEnv(fr, st, h)
 				for _, c := range cs {
 					x.oblige(st, "INV", fmt.Sprintf("loop%d/exit(%s)", ord, c.Src), x.evalBool(env, c.Expr), "condition on leaving the loop")
